@@ -228,4 +228,38 @@ PROPS = {
         ],
         "partial": ["convergence theorems over the model are not yet proved; decided per history on the real code"],
     },
+    "C13": {
+        "harness": "c13",
+        "props_file": "Props/C13.v",
+        "run_module": "Model.Codec Model.RunC13",
+        "run_fn": "run_c13",
+        "pinned_theorems": ["C13_roundtrip", "C13_roundtrip_exact", "C13_roundtrip_unordered", "C13_enc_injective",
+                            "C13_enc_injective_unordered", "C13_v1_upgrade_keys",
+                            "C13_v1_upgrade", "C13_v1_upgrade_general", "C13_v1_no_pragma", "C13_v1_module",
+                            "C13_v1_untouched", "C13_roundtrip_holdsb_correct", "C13_v1_holdsb_correct",
+                            "C13_v1_model_holds"],
+        "rule": ("part (a) of C13 only (codec + moduleGraph1 upgrade). Cases, in this order: the exhaustive "
+                 "enumeration of the discrete shapes (683: every static/dynamic kind x optional field presence x "
+                 "attribute shape x argument shape, every reference/jsdoc variant x resolution mode, all 256 "
+                 "subsets of non-empty ModuleInfo fields); the ModuleInfo of every module source embedded in "
+                 "/repo/tests/specs/**/*.txt analysed by the real ParserModuleAnalyzer; every moduleGraph1/2 entry "
+                 "of the corpus manifests; 138 hand-written decoder corner cases; then generated cases (quick 16k, "
+                 "thorough 200k; 40% random ModuleInfo values with every field independently empty/non-empty and "
+                 "strings incl. empty, quotes, NUL, non-BMP; 30% structurally mutated or random JSON through the "
+                 "decoder; 20% moduleGraph1 entries with generated leadingComments incl. quote-less, case-folded, "
+                 "non-ASCII and malformed ones; 10% moduleGraph2/1 selection in JsrPackageVersionInfo::module_info). "
+                 "Compared: model_enc(mi) = real to_value(mi) as unordered JSON; model_dec(real_enc(mi)) = mi; "
+                 "model_dec(j) = real from_value(j) for mutated j; model upgrade(j) = real module_graph_1_to_2(j) and "
+                 "model decode = real module_info(); the real from_value/from_str round trips (also with permuted "
+                 "keys) are checked directly; two proved decision procedures judge the real outputs. "
+                 "non-trivial = info with a non-empty field / an effective mutation / an entry with leadingComments"),
+        "assumptions": [
+            "JSON at serde_json::Value level (text layer trusted); numbers are u64 below 2^62; other numbers are outside the modelled domain",
+            "find_deno_types (regex) enters the model as a table computed by the real function; the theorems hold for every such function",
+            "part (b) of C13 (manifest shortcut equals parsing) is not covered by this check",
+            "real from_value(model_enc(mi)) = mi is obtained from model_enc(mi) = real to_value(mi) as unordered values (compared on every case) and the real round trip with permuted object keys (checked directly on every case)",
+            "the range attached to an upgraded types specifier is the one module_graph_1_to_2 computes (comment start + 2 + regex byte offsets -1/+1, unbounded arithmetic in the model); the property text does not constrain it. Observed on the real code: it differs from what the current analyser computes for the same source when the pragma is quote-less (14..24 instead of 15..23 for `// @deno-types=./a.d.ts`) or contains / is preceded by non-ASCII text (byte instead of character offsets), and `character` = usize::MAX in a manifest makes module_graph_1_to_2 overflow (panic with overflow checks)",
+        ],
+        "partial": ["part (b) of C13 (graph built from embedded module info equals graph built by parsing) is not modelled yet; only the codec and the moduleGraph1 upgrade are proved and tied to the code"],
+    },
 }
